@@ -62,6 +62,36 @@ pub fn text(rng: &mut Rng, b: &mut Budget) -> String {
     if n > 2 && rng.chance(1, 40) && s.is_char_boundary(1) {
         s.replace_range(0..1, "\u{1}");
     }
+    with_special_edge(rng, s, n)
+}
+
+/// characters that a "clean-up" would strip or alter, at the very start or end of a string (MQTT-1.5.4-3: a BOM is
+/// data and must be kept; so are blanks, combining marks, directional marks): same byte length as before
+pub fn with_special_edge(rng: &mut Rng, mut s: String, n: usize) -> String {
+    if n >= 4 && rng.chance(1, 25) {
+        let sp = *rng.pick(&["\u{feff}", "\u{200b}", " ", "\u{301}", "\u{2028}", "\u{85}", "\t"]);
+        let at_start = rng.bool();
+        // replace bytes at the edge by the special character, keeping the length and char boundaries
+        let k = sp.len();
+        if at_start {
+            let mut cut = k;
+            while cut < s.len() && !s.is_char_boundary(cut) {
+                cut += 1;
+            }
+            if cut <= s.len() {
+                let pad = "a".repeat(cut - k);
+                s.replace_range(0..cut, &format!("{sp}{pad}"));
+            }
+        } else {
+            let mut cut = s.len().saturating_sub(k);
+            while cut > 0 && !s.is_char_boundary(cut) {
+                cut -= 1;
+            }
+            let pad = "a".repeat(s.len() - cut - k);
+            s.replace_range(cut.., &format!("{pad}{sp}"));
+        }
+    }
+    debug_assert_eq!(s.len(), n);
     s
 }
 pub fn atext(rng: &mut Rng, b: &mut Budget) -> Arc<String> {
@@ -74,6 +104,7 @@ pub fn bin(rng: &mut Rng, b: &mut Budget) -> Bytes {
 pub fn topic_name(rng: &mut Rng, b: &mut Budget) -> TopicName {
     let n = text_len(rng, b);
     let s = text_of_len(rng, n, &ALPHA);
+    let s = with_special_edge(rng, s, n);
     TopicName::try_from(s).expect("generated topic name is valid")
 }
 pub fn topic_filter(rng: &mut Rng, b: &mut Budget) -> TopicFilter {
@@ -117,6 +148,19 @@ pub fn topic_filter(rng: &mut Rng, b: &mut Budget) -> TopicFilter {
         s.push('a');
     }
     TopicFilter::try_from(s.clone()).unwrap_or_else(|_| TopicFilter::try_from("a/b".to_string()).unwrap())
+}
+/// with some probability repeat an entry of a list right after itself, and/or again at the end (lists are
+/// sequences: nothing may be "deduplicated")
+pub fn with_repeats<T: Clone>(rng: &mut Rng, mut v: Vec<T>) -> Vec<T> {
+    if !v.is_empty() && rng.chance(1, 5) {
+        let i = rng.below(v.len() as u64) as usize;
+        let x = v[i].clone();
+        v.insert(i + 1, x.clone());
+        if rng.chance(1, 3) {
+            v.push(x);
+        }
+    }
+    v
 }
 pub fn pid(rng: &mut Rng) -> Pid {
     let v = match rng.below(8) {
@@ -216,7 +260,7 @@ pub fn gen_v3(rng: &mut Rng, b: &mut Budget, typ: &str) -> v3::Packet {
             let n = list_len(rng);
             P::Subscribe(v3::Subscribe {
                 pid: pid(rng),
-                topics: (0..n.max(1)).map(|_| (topic_filter(rng, b), qos(rng))).collect(),
+                topics: { let v = (0..n.max(1)).map(|_| (topic_filter(rng, b), qos(rng))).collect(); with_repeats(rng, v) },
             })
         }
         "Suback" => {
@@ -230,7 +274,7 @@ pub fn gen_v3(rng: &mut Rng, b: &mut Budget, typ: &str) -> v3::Packet {
             let n = list_len(rng);
             P::Unsubscribe(v3::Unsubscribe {
                 pid: pid(rng),
-                topics: (0..n.max(1)).map(|_| topic_filter(rng, b)).collect(),
+                topics: { let v = (0..n.max(1)).map(|_| topic_filter(rng, b)).collect(); with_repeats(rng, v) },
             })
         }
         "Pingreq" => P::Pingreq,
@@ -423,19 +467,22 @@ pub fn gen_v5(rng: &mut Rng, b: &mut Budget, typ: &str) -> v5::Packet {
                     subscription_id: o!(vbi(rng)),
                     user_properties: us(rng, b),
                 },
-                topics: (0..n)
-                    .map(|_| {
-                        (
-                            topic_filter(rng, b),
-                            v5::SubscriptionOptions {
-                                max_qos: qos(rng),
-                                no_local: rng.bool(),
-                                retain_as_published: rng.bool(),
-                                retain_handling: *rng.pick(V5_RH),
-                            },
-                        )
-                    })
-                    .collect(),
+                topics: {
+                    let v = (0..n)
+                        .map(|_| {
+                            (
+                                topic_filter(rng, b),
+                                v5::SubscriptionOptions {
+                                    max_qos: qos(rng),
+                                    no_local: rng.bool(),
+                                    retain_as_published: rng.bool(),
+                                    retain_handling: *rng.pick(V5_RH),
+                                },
+                            )
+                        })
+                        .collect();
+                    with_repeats(rng, v)
+                },
             })
         }
         "Suback" => {
@@ -456,7 +503,7 @@ pub fn gen_v5(rng: &mut Rng, b: &mut Budget, typ: &str) -> v5::Packet {
                 properties: v5::UnsubscribeProperties {
                     user_properties: us(rng, b),
                 },
-                topics: (0..n).map(|_| topic_filter(rng, b)).collect(),
+                topics: { let v = (0..n).map(|_| topic_filter(rng, b)).collect(); with_repeats(rng, v) },
             })
         }
         "Unsuback" => {
